@@ -207,7 +207,18 @@ func c18Forms() []form {
 
 func c18Moffs(yield func(sem.Stmt)) {
 	for _, acc := range []string{"AL", "AX", "EAX"} {
-		for _, a := range []int64{0, 0x10, 0x0ff0, 0x7fff, 0xfffe} {
+		for _, a := range []int64{0, 0x10, 0x0ff0, 0x7fff, 0x8000, 0xfffe, 0xffff} {
+			m := sem.M(sem.Mem{Disp: a, HasDisp: true})
+			yield(sem.Stmt{Mn: "MOV", Ops: []sem.Operand{sem.R(acc), m}})
+			yield(sem.Stmt{Mn: "MOV", Ops: []sem.Operand{m, sem.R(acc)}})
+		}
+	}
+}
+
+// c18Moffs32: absolute addresses that only exist at 32-bit address width
+func c18Moffs32(yield func(sem.Stmt)) {
+	for _, acc := range []string{"AL", "AX", "EAX"} {
+		for _, a := range []int64{0x10000, 0x7fffffff, 0x80000000, 0xfffffffe, 0xffffffff} {
 			m := sem.M(sem.Mem{Disp: a, HasDisp: true})
 			yield(sem.Stmt{Mn: "MOV", Ops: []sem.Operand{sem.R(acc), m}})
 			yield(sem.Stmt{Mn: "MOV", Ops: []sem.Operand{m, sem.R(acc)}})
@@ -266,6 +277,9 @@ var propC18 = &Prop[InstCase]{
 				rec(0, nil)
 			}
 			c18Moffs(func(s sem.Stmt) { yield(InstCase{Mode: mode, St: s, Cls: "mov.moffs"}) })
+			if mode == 32 {
+				c18Moffs32(func(s sem.Stmt) { yield(InstCase{Mode: mode, St: s, Cls: "mov.moffs"}) })
+			}
 		}
 		return tier == "thorough"
 	},
